@@ -42,10 +42,17 @@ def run(chk, replay=None):
         fn = {'BLL': be.binary_conditional_likelihood_test, 'BLLS': be.binary_spatial_test, 'BRIER': br.brier_score_test}[kind]
         return guarded_timeout(20, fn, fc, cat, num_simulations=nsim, seed=seed)
 
-    def check_case(case, table, mult):
+    def laid(a, lay):
+        a = numpy.array(a, dtype=float)
+        if a.ndim < 2 or lay == 'C':
+            return a
+        return numpy.asfortranarray(a) if lay == 'F' else numpy.ascontiguousarray(a.T).T
+
+    def check_case(case, table, mult, lay='C', clay='C'):
+        # lay / clay: memory layout of the rate array and of the count array (same values per (cell, bin) in all of them)
         kind, rid, w = case['kind'], case['rid'], case['w']
         nc, nb = len(rid), len(rid[0])
-        data = numpy.array([[table.get(rid[c][b], 0.0) for b in range(nb)] for c in range(nc)], dtype=float)
+        data = laid([[table.get(rid[c][b], 0.0) for b in range(nb)] for c in range(nc)], lay)
         wm = [[x * (mult if (c + b) % 2 == 0 else 1) for b, x in enumerate(row)] for c, row in enumerate(w)]
         rates = {i: Fraction(float(v)) for i, v in table.items()}
         exp = xr.evaluate(case['stat'], rates)
@@ -57,19 +64,19 @@ def run(chk, replay=None):
         extra = cancel_atol(act_rates) if kind != 'BRIER' else 0.0
         # ndarray level
         if kind == 'BLL':
-            g = guarded(be.binary_joint_log_likelihood_ndarray, data, numpy.array(wm, dtype=float))
+            g = guarded(be.binary_joint_log_likelihood_ndarray, data, laid(wm, clay))
             fnname = 'binary_joint_log_likelihood_ndarray'
         elif kind == 'BLLS':
             g = guarded(be.binary_joint_log_likelihood_ndarray, data.sum(axis=1), numpy.array(wm, dtype=float).sum(axis=1))
             fnname = 'binary_joint_log_likelihood_ndarray(spatial)'
         else:
-            g = guarded(br._brier_score_ndarray, data, numpy.array(wm, dtype=float))
+            g = guarded(br._brier_score_ndarray, data, laid(wm, clay))
             fnname = '_brier_score_ndarray'
         chk.count()
         if isinstance(g, Raised) or not xr.close(g, exp, atol=1e-11 + extra):
             bad.append((fnname, repr(g), str(exp)))
         # public test level (only when every event sits in a positive-rate bin or the spec says -inf)
-        fc = B.forecast(data)
+        fc = B.forecast(data, layout=lay)
         cat = B.catalog(wm, nc, nb)
         n_act = sum(1 for r in wm for x in r if x > 0)
         n_pos = int((data > 0).sum()) if kind != 'BLLS' else int((data.sum(axis=1) > 0).sum())
@@ -92,7 +99,7 @@ def run(chk, replay=None):
 
     if replay:
         d = replay['detail']
-        bad = check_case(d['case'], {int(k): v for k, v in d['table'].items()}, d['mult'])
+        bad = check_case(d['case'], {int(k): v for k, v in d['table'].items()}, d['mult'], d.get('lay', 'C'), d.get('clay', 'C'))
         if bad:
             chk.violation(replay['signature'], dict(d, mismatches=bad))
         chk.sample({'replayed': d['case']['rid']})
@@ -109,7 +116,8 @@ def run(chk, replay=None):
             mult = 1 + (ci + ti) % 3
             if mult > 1:
                 chk.nontrivial('%s|%s|%s|m%d' % (case['kind'], case['rid'], w, mult))
-            bad = check_case(case, table, mult)
+            lay, clay = [('C', 'C'), ('F', 'C'), ('T', 'C'), ('C', 'F'), ('F', 'F')][(ci + ti) % 5]
+            bad = check_case(case, table, mult, lay, clay)
             if not bad:
                 ok_cases.add(ci)
             if bad:
@@ -118,7 +126,8 @@ def run(chk, replay=None):
                 zero_active = case['stat']['op'] == 'neginf'
                 chk.violation('gen:%s:%s:%s' % (case['kind'], bad[0][0].split('(')[0],
                                                 'active-zero-rate-bin' if zero_active else 'finite'),
-                              {'case': case, 'table': {str(k): v for k, v in table.items()}, 'mult': mult, 'mismatches': bad})
+                              {'case': case, 'table': {str(k): v for k, v in table.items()}, 'mult': mult, 'lay': lay, 'clay': clay,
+                               'mismatches': bad})
         if ci in (50, 2000):
             chk.sample({'case': {'kind': case['kind'], 'rid': case['rid'], 'w': w}, 'xr_stat': case['stat']})
     chk.traces += len(ok_cases)
